@@ -7,7 +7,7 @@ import shutil
 
 import numpy as np
 
-from lib import core, tlc, recio
+from lib import core, tlc, recio, naming
 
 GEN = """---- MODULE GEN_InconFile ----
 EXTENDS InconFile, Json
@@ -30,7 +30,7 @@ CHECK_DEADLOCK FALSE
 
 # names as the four conventions generate them (3 chars + 2-digit number, 2 chars + 3-digit number), in repaired form:
 # a name is in the domain when repairing the simulator's print form gives it back
-NAMES = ["AA  1", "aa 12", " a  1", "abc12", "a 123", "AB105", "zz 99", "  a 1", "ab105", "Ab* 7",
+NAMES = [" a105", "A 209", "  101", " b 12", "AA  1", "aa 12", " a  1", "abc12", "a 123", "AB105", "zz 99", "  a 1", "ab105", "Ab* 7",
          " 1  1", "A1  2", "xyz 3", "atm 0", "q9912", "  1 1", " a101", "ATM 0", "b 1 2".replace(" 1 2", "1 02")]
 
 
@@ -120,7 +120,7 @@ def compare_read(inc2, truth, timing, exp, t2incons, mulgrids):
         return "P1_blocks", "%d blocks read, %d written" % (inc2.num_blocks, len(truth))
     for i, t in enumerate(truth):
         b = inc2[i]
-        if b.block != mulgrids.fix_blockname(t["name"]):
+        if b.block != naming.ref_fix(t["name"]):
             return "P4_names", "block %d name %r, written %r" % (i, b.block, t["name"])
         if len(b.variable) != len(t["vals"]):
             return "P1_values", "block %d has %d values, written %d" % (i, len(b.variable), len(t["vals"]))
@@ -194,7 +194,7 @@ def run(tier):
             docs = docs[:700]
         for n, e in enumerate(docs):
             d = e["doc"]
-            pool = [n for n in NAMES if mulgrids.valid_blockname(n) and mulgrids.fix_blockname(mulgrids.unfix_blockname(n)) == n]
+            pool = [n for n in NAMES if naming.canonical(n)]
             names = rng.sample(pool, len(d["blocks"]))
             inc, truth, timing = build(t2incons, d, rng, names)
             p1, p2 = os.path.join(work, "a.incon"), os.path.join(work, "b.incon")
@@ -202,6 +202,13 @@ def run(tier):
             det = {"doc": d, "reset": e["reset"], "num_variables": e["nvar"], "names": names}
             rep.case(json.dumps([d, e["reset"], e["nvar"]], sort_keys=True), nontrivial=len(d["blocks"]) > 0)
             try:
+                # writing is an observer: a write with the other reset value first must not change the object
+                with core.quiet():
+                    inc.write(p2, reset=not e["reset"])
+                if (inc.timing is None) != (timing is None) or (timing is not None and inc.timing != timing) \
+                        or inc.num_blocks != len(truth) or inc.simulator != d["flav"]:
+                    rep.violation(key + ":write-changes-object", "P_write_leaves_object_unchanged", det)
+                    continue
                 tracer.record()
                 with core.quiet():
                     inc.write(p1, reset=e["reset"])
